@@ -79,6 +79,8 @@ def schedule(prog: dict, seed: int, p_withhold: float = 0.15, p_sweep: float = 0
     p_withhold (redelivered after a lock expiry), optional sweeps / cancel / spurious StartStage."""
     rng = random.Random(seed)
     run = Run(prog, "sched")
+    if seed % 2 == 1:       # every other schedule: each delivery on a fresh worker thread (connections recycled)
+        run.threaded = True
     try:
         run.start()
         sweeps = 0
